@@ -12,7 +12,7 @@ ms=[]
 for f in sorted(glob.glob('/verif/seeded/*/meta.json')):
     m=json.load(open(f))
     if m['property']==pid: ms.append(m['file']+': '+m['what'])
-print("Earlier authors already used the following mechanisms for this property; yours must be DIFFERENT in both the code site and the kind of trigger (prefer one that needs a multi-step history, an unusual-but-valid configuration, or two cooperating edits; also consider: a second public route to the same result that bypasses your edit or is the only one affected, one object reused for several calls, the order of setter / loader / constructor calls, clones, rarely used public constructors and stage-level public APIs used directly, value classes such as negative zero, exact ties, equal neighbours, empty or length-one collections; and, new in this round: integer boundaries (usize subtraction, f64 -> usize casts, rounding at .5, first / last element of a loop), the interaction of two in-range settings that are each harmless alone, state carried from one frame / label / call to the next, utterances of one label or of several hundred, voices whose streams differ in shape (vector length, window count, number of states, tree depth), error-path plumbing (which error, whether state was already modified), and quantities that are usually equal in ordinary use but need not be (sampling rate vs. the voice's, frame period vs. the voice's, number of windows vs. band width, number of voices vs. number of weights); and, new in THIS round: effects that only show over long runs (a counter / phase / accumulator drifting over hundreds of frames, more than 65536 samples, many identical labels in a row), confusion between label-level, state-level and frame-level indices, numeric edge values (subnormals, exact powers of two, huge-but-finite values, a*b/b != a), voice features the bundled voice does not have (question patterns using '?', several patterns per question, duplicate question names across models, width-5 windows, one-state voices, seven-state voices, trees of depth 1), and behaviour that differs between the first and the later frames / labels / calls)): " + " | ".join(ms))
+print("Earlier authors already used the following mechanisms for this property; yours must be DIFFERENT in both the code site and the kind of trigger (prefer one that needs a multi-step history, an unusual-but-valid configuration, or two cooperating edits; also consider: a second public route to the same result that bypasses your edit or is the only one affected, one object reused for several calls, the order of setter / loader / constructor calls, clones, rarely used public constructors and stage-level public APIs used directly, value classes such as negative zero, exact ties, equal neighbours, empty or length-one collections; and, new in this round: integer boundaries (usize subtraction, f64 -> usize casts, rounding at .5, first / last element of a loop), the interaction of two in-range settings that are each harmless alone, state carried from one frame / label / call to the next, utterances of one label or of several hundred, voices whose streams differ in shape (vector length, window count, number of states, tree depth), error-path plumbing (which error, whether state was already modified), and quantities that are usually equal in ordinary use but need not be (sampling rate vs. the voice's, frame period vs. the voice's, number of windows vs. band width, number of voices vs. number of weights); and, new in THIS round: effects that only show over long runs (a counter / phase / accumulator drifting over hundreds of frames, more than 65536 samples, many identical labels in a row), confusion between label-level, state-level and frame-level indices, numeric edge values (subnormals, exact powers of two, huge-but-finite values, a*b/b != a), voice features the bundled voice does not have (question patterns using '?', several patterns per question, duplicate question names across models, width-5 windows, one-state voices, seven-state voices, trees of depth 1), and behaviour that differs between the first and the later frames / labels / calls); and, new in the LATEST round: hand-written or derived trait impls that skip or mishandle a field (Clone, PartialEq, Default, Serialize/Deserialize round trips of the public structs), conversions between number types (usize <-> f64, f32 -> f64, i64 parsing), ordering / sort stability / tie-breaking, shared helpers used from two call sites with different expectations, and public constructors or setters of the stage-level structs that a direct user of the stage API would call)): " + " | ".join(ms))
 PY
 )
 python3 tools/mk_mutprompt.py $sid $pid "$note"
